@@ -49,6 +49,7 @@ auto compact_theta_sketch_parser<dummy>::parse(const void* ptr, size_t size, uin
       theta = reinterpret_cast<const uint64_t*>(ptr)[COMPACT_SKETCH_V4_THETA_U64];
     }
     const uint8_t num_entries_bytes = reinterpret_cast<const uint8_t*>(ptr)[COMPACT_SKETCH_V4_NUM_ENTRIES_BYTES_BYTE];
+    if (num_entries_bytes > sizeof(uint32_t)) throw std::invalid_argument("number of entries must take at most 4 bytes: " + std::to_string(num_entries_bytes));
     size_t data_offset_bytes = has_theta ? COMPACT_SKETCH_V4_PACKED_DATA_ESTIMATION_BYTE : COMPACT_SKETCH_V4_PACKED_DATA_EXACT_BYTE;
     check_memory_size(ptr, size, data_offset_bytes + num_entries_bytes, dump_on_error);
     uint32_t num_entries = 0;
@@ -58,6 +59,7 @@ auto compact_theta_sketch_parser<dummy>::parse(const void* ptr, size_t size, uin
     }
     data_offset_bytes += num_entries_bytes;
     const uint8_t entry_bits = reinterpret_cast<const uint8_t*>(ptr)[COMPACT_SKETCH_V4_ENTRY_BITS_BYTE];
+    if (entry_bits < 1 || entry_bits > 63) throw std::invalid_argument("entry bits must be between 1 and 63: " + std::to_string(entry_bits));
     const size_t expected_bits = entry_bits * num_entries;
     const size_t expected_size_bytes = data_offset_bytes + whole_bytes_to_hold_bits(expected_bits);
     check_memory_size(ptr, size, expected_size_bytes, dump_on_error);
